@@ -422,6 +422,73 @@ func legRobust(c *Ctx) {
 	}
 	c.Gate("balancing stress ran", balCalls > 2000)
 
+	// backtracking-stack growth INSIDE an atomic group, a lookaround or a conditional: the body really backtracks and
+	// the text is long enough for the stack to be re-allocated while the saved position of the enclosing construct is
+	// pending (a saved absolute index goes stale; the code keeps distances from the end)
+	growCalls := 0
+	for _, gp := range []struct {
+		pat  string
+		unit string
+		tail []string
+	}{
+		{`(?>(?:\w\d|\w)*)\d!`, "a1", []string{"!", "", "x"}},
+		{`(?!(?:\w\d|\w)*!)\w`, "a1", []string{"!", "", "?"}},
+		{`(?=((?:\w\d|\w))*!)\w+x`, "a1", []string{"!", "!x", ""}},
+		{`(?<=(?:\d\w|\w)*)!x`, "a1", []string{"!x", "!", ""}},
+		{`(?(?=(?:\w\d|\w)*!)\w+!|\w)`, "a1", []string{"!", "", "?"}},
+		{`(?>(?:ab?|a)*)b`, "ab", []string{"", "b", "c"}},
+		{`x(?>(?:(a)|(b)|ab)*)c`, "ab", []string{"c", "", "d"}},
+	} {
+		for _, ro := range []regexp2.RegexOptions{0, regexp2.RightToLeft} {
+			re, err := regexp2.Compile(gp.pat, ro)
+			if err != nil {
+				continue
+			}
+			re.MatchTimeout = 500 * time.Millisecond
+			var bad []string
+			for n := 1; n <= 80 && len(bad) == 0; n++ {
+				if n > 40 && n%7 != 0 {
+					continue
+				}
+				for _, tl := range gp.tail {
+					in := strings.Repeat(gp.unit, n) + tl
+					if ro != 0 {
+						in = tl + strings.Repeat(gp.unit, n)
+					}
+					growCalls++
+					// a FRESH Regexp for every text: a pooled runner keeps its grown stack, and it is the first growth
+					// that has to happen inside the construct
+					re, _ := regexp2.Compile(gp.pat, ro)
+					re.MatchTimeout = 500 * time.Millisecond
+					guarded(fmt.Sprintf("match(%q)", in), &bad, false, func() error {
+						if _, err := re.MatchString(in); err != nil {
+							return nil
+						}
+						re2, _ := regexp2.Compile(gp.pat, ro)
+						re2.MatchTimeout = 500 * time.Millisecond
+						m, err := re2.FindStringMatch("x" + in)
+						for k := 0; m != nil && err == nil && k < 5; k++ {
+							_ = m.String()
+							m, err = re.FindNextMatch(m)
+						}
+						if err != nil {
+							return nil // a timeout is not this section's subject
+						}
+						_, _ = re.Replace(in, "<$&>", -1, -1)
+						_, _ = re.Split(in, -1)
+						return nil
+					})
+				}
+			}
+			cs := &Case{Desc: fmt.Sprintf("stack growth inside a construct: pattern %+q options=%#x on %q x 1..80 + tails %q", gp.pat, int(ro), gp.unit, gp.tail), Nontrivial: true, Key: "grow" + gp.pat + fmt.Sprint(ro), Class: "stack-growth"}
+			if len(bad) > 0 {
+				cs.Direct = strings.Join(bad, " | ")
+			}
+			c.Add(cs)
+		}
+	}
+	c.Gate("stack-growth stress ran", growCalls > 1000)
+
 	// every truncation of every syntactic construct, at the end of a pattern, under every dialect: the pre-scan
 	// (countCaptures) and the parser look ahead by fixed amounts and must find the end of the pattern first
 	constructs := []string{`(?P<name>a)`, `(?<n-m>a)`, `(?'n'a)`, `(?P=name)`, `(?(1)a|b)`, `(?(name)a|b)`, `(?(?=a)b|c)`, `\k<name>`, `\k'n'`, `\k{n}`,
